@@ -264,6 +264,15 @@ fn scripted(v: Variant) -> Vec<Hist> {
         s.info.description = "d".repeat(d);
         bad.push(s);
     }
+    for l in harvest_literals(&["contracts/collections/sg721-base/src/contract.rs"]) {
+        if l > 1 && l < 5000 && l != 512 {
+            for d in [l - 1, l, l + 1] {
+                let mut s = base.clone();
+                s.info.description = "d".repeat(d as usize);
+                bad.push(s);
+            }
+        }
+    }
     for d in [256usize, 257] {
         let mut s = base.clone();
         s.info.description = "\u{e9}".repeat(d); // two bytes each: 512 / 514 bytes
